@@ -619,9 +619,7 @@ Section Final.
   Variable x : xg.
   Variable wave : bool.
   Variable c : zmap.
-  Hypothesis Hprep : preparedb x c = true.
-
-  Let HP := preparedb_Prepared x c Hprep.
+  Hypothesis HP : Prepared x c.
 
   Lemma reach_inv sched : Inv x c (run_sched x wave (init_st x c) sched).
   Proof. apply run_sched_inv; [exact HP | apply inv_init; exact HP]. Qed.
@@ -773,8 +771,8 @@ Lemma C30_holds_except_proof : forall x c wave sched,
   safety_stmt x c s /\ (acyclic x -> final_stmt x c s).
 Proof.
   intros x c wave sched H. apply negb_false_iff in H. split.
-  - apply exec_safe. exact H.
-  - intros Ha Hq. apply exec_live; assumption.
+  - apply exec_safe. apply preparedb_Prepared. exact H.
+  - intros Ha Hq. apply exec_live; [apply preparedb_Prepared; exact H | exact Ha | exact Hq].
 Qed.
 
 Lemma C30_single_thread_proof : forall x c,
